@@ -382,6 +382,7 @@ func (c *fnCtx) function() {
 	for _, l := range sc.logs {
 		logged[l] = true
 	}
+	c.findWordPtrs(fd)
 	usage := c.sliceUsage(fd)
 	mapMut, anyMapMut := c.mapMutations(c.body)
 	c.noMapMut, c.mapMut = !anyMapMut, mapMut
@@ -654,6 +655,12 @@ func (c *fnCtx) sliceUsage(fd *ast.FuncDecl) map[string]*sliceUse {
 				if ix, ok := l.(*ast.IndexExpr); ok {
 					if p := paramOf(ix.X); p != "" {
 						use[p].stored = true
+					}
+				}
+				if ix := c.wordTarget(l); ix != nil {
+					// a store through (*uint64)(unsafe.Pointer(&p[i]))
+					if p := paramOf(ix.X); p != "" {
+						use[p].stored, use[p].elems = true, true
 					}
 				}
 				// x = x[lo:hi] on a parameter is a re-slice of the list itself
@@ -981,6 +988,9 @@ func (c *fnCtx) rootVar(e ast.Expr) *fnVar {
 	case *ast.ParenExpr:
 		return c.rootVar(v.X)
 	case *ast.StarExpr:
+		if ix := c.wordTarget(v); ix != nil {
+			return c.rootVar(ix.X)
+		}
 		return c.rootVar(v.X)
 	case *ast.Ident:
 		return c.lookup(v)
@@ -1323,6 +1333,13 @@ func (c *fnCtx) expr(e ast.Expr, pre *[]fnBind) (string, *fnType) {
 		}
 		c.lostAt(v, "selector %s", src(v))
 	case *ast.StarExpr:
+		if ix := c.wordTarget(v); ix != nil {
+			// *(*uint64)(unsafe.Pointer(&data[i])): the bounds check of data[i], then 8 bytes unchecked
+			x, idx := c.wordAccess(v, ix, pre)
+			tm := c.tmp()
+			bindRaw(pre, tm, "go_load64 "+x.name+" "+paren(idx))
+			return tm, tyU64
+		}
 		if x := c.plainVar(v); x != nil {
 			return x.name, x.typ
 		}
